@@ -20,7 +20,7 @@ import (
 //	complex*             [re, im] strings
 //	string               JSON string if valid UTF-8, else {"hex": "..."}
 //	pointer              null | [V]
-//	slice                null | [V, ...]         ([]byte kinds too: elements are decimal strings)
+//	slice                null | [V, ...]         ([]byte kinds too: elements are decimal strings, or {"hex": "..."})
 //	array                [V, ...]
 //	map                  null | [[K, V], ...]   (insertion order irrelevant)
 //	struct               [V, ...] one per field, unexported fields included
@@ -122,6 +122,17 @@ func build(rv reflect.Value, d any) {
 		if d == nil {
 			return
 		}
+		if m, ok := d.(map[string]any); ok && t.Elem().Kind() == reflect.Uint8 {
+			// compact form of a (long) byte slice: {"hex": "..."}
+			b, err := hex.DecodeString(m["hex"].(string))
+			must(err)
+			s := reflect.MakeSlice(t, len(b), len(b))
+			for i, c := range b {
+				s.Index(i).SetUint(uint64(c))
+			}
+			rv.Set(s)
+			return
+		}
 		l := d.([]any)
 		s := reflect.MakeSlice(t, len(l), len(l))
 		for i, e := range l {
@@ -221,3 +232,17 @@ func goSyntax(rv reflect.Value) string {
 	}
 	return s
 }
+
+// bytesDesc describes a byte slice of length n with a fixed, position-dependent content.
+func bytesDesc(n int) any {
+	b := make([]byte, n)
+	for i := range b {
+		b[i] = byte(i*31 + 7 + i/251)
+	}
+	return map[string]any{"hex": hex.EncodeToString(b)}
+}
+
+// byteBoundaryLens are the lengths around the places where a Base64 encoder can go wrong:
+// the three residues mod 3 at small sizes and around buffer sizes 1024, 2048, 4096 and 65536.
+var byteBoundaryLens = []int{0, 1, 2, 3, 4, 5, 6, 1021, 1022, 1023, 1024, 1025, 1026, 1027, 2047, 2048, 2049, 2050,
+	3071, 3072, 3073, 4094, 4095, 4096, 4097, 4098, 65534, 65535, 65536, 65537, 65538}
